@@ -61,6 +61,7 @@ def dec : Dec := fun data oid =>
   else if oid = 23 then do pure (.int (toSigned 32 (← uN 4 data 0)))
   else if oid = 20 then do pure (.int (toSigned 64 (← uN 8 data 0)))
   else if oid = 26 then do pure (.int (← uN 4 data 0))
+  else if (oid = 602 ∨ oid = 604) ∧ data.length < 5 then pure (.str [])   -- decodePathOrPolygon: too short → ""
   else pure (.str (safeString data))
 
 end PgVerif.Model.LocalDec
